@@ -59,6 +59,7 @@ func runC05(c *Check, a *Analysis) {
 	p := c.P
 	ruleLockBalance(c, a, "R-LOCK-BALANCE", "ServerContext.recving")
 	rulePipeliningQueues(c, a, "R-PIPELINING-QUEUES")
+	ruleSchedNil(c, a, "R-SCHED-NIL")
 	ls := a.Locks()
 	sc := siteCounter{}
 
